@@ -8,12 +8,15 @@ as the molecule that was built. When no link is missing, the residue graph recov
 isomorphic to the requested one with equal residue names and ids, so gen_coords can consume what
 gen_params produced."
 
-Property theorems only (helper lemmas: Proofs/ItpIO.lean; model: Model/ItpIO.lean, token level — the
-vermouth writer/reader are MODELLED and tied to the installed code by the correspondence streams of
-harness/c11.py on every run).  Each theorem is followed by a non-vacuity `example`.
+Property theorems only (helper lemmas: Proofs/ItpIO.lean, Proofs/C11Lex.lean; model: Model/ItpIO.lean, token
+level, and Model/C11Lex.lean, character level — the vermouth writer/reader are MODELLED and tied to the
+installed code by the correspondence streams of harness/c11.py on every run).  Each theorem is followed by
+a non-vacuity `example`.
 -/
 import PolyplyVerif.Model.ItpIO
+import PolyplyVerif.Model.C11Lex
 import PolyplyVerif.Proofs.ItpIO
+import PolyplyVerif.Proofs.C11Lex
 
 namespace PolyplyVerif.C11
 open PolyplyVerif.ItpIO
@@ -200,5 +203,156 @@ theorem C11_written (fs : FS) (out argv : String) (moltype : Tok) (m : Mol) (cit
     exact hr
 
 example : ∃ s, (fun (e : String) => (Except.ok e : Except String String)) "Kroon 2024" = .ok s := ⟨_, rfl⟩
+
+/-! ### the character level (Model/C11Lex.lean) -/
+
+open PolyplyVerif.C11Lex in
+/-- **Lexing what was rendered gives the tokens back.**  `writeItpText` is the file `write_molecule_itp`
+produces character by character (column padding of the `[ atoms ]` table, right-aligned atom indices,
+`' '.join`, trailing blanks for absent charge/mass and for parameterless interactions, ` ; comment`);
+`lexLine` is the lexer of the readers (`split_comments`, `strip`, dispatch on `[`…`]` / `#`, `split()`).  For
+every molecule whose strings are tokens (`tokensOk`: molecule name, atom type, residue and atom name,
+charge/mass when present, parameters and guard tags are non-empty and free of whitespace and `;`, the
+molecule name does not start with `[` or `#`) and whose non-empty sections have a header the lexer gives
+back (`headersOk`; implied by `WF`), whenever the token writer produces `lines` the text writer produces a
+text, and lexing it line by line yields exactly `lines` — with the comment texts stripped (`normLine`), which
+is all a comment loses.  Any widths, any number of atoms / sections / interactions. -/
+theorem C11_lex_render (header : List String) (moltype : Tok) (m : Mol) (lines : List Line)
+    (hw : writeItp header moltype m = .ok lines) (htok : tokensOk moltype m = true) (hhdr : headersOk m = true) :
+    ∃ text, writeItpText header moltype m = .ok text ∧ lexText text = lines.map normLine :=
+  Proofs.C11Lex.lex_writeItpText header moltype m lines hw htok hhdr
+
+open PolyplyVerif.C11Lex in
+/-- non-vacuity: `exMol` meets the hypotheses (the writer succeeds on it by `C11_roundtrip`, `WF exMol` above) -/
+example : tokensOk "mol" exMol = true ∧ headersOk exMol = true ∧ (∃ lines, writeItp ["h"] "mol" exMol = .ok lines) := by
+  refine ⟨by decide, by decide, ?_⟩
+  obtain ⟨lines, _, hw, _⟩ := C11_roundtrip ["h"] "mol" exMol (Proofs.ItpIO.wfB_sound exMol (by decide))
+  exact ⟨lines, hw⟩
+
+/-- a one-atom molecule whose text the kernel can evaluate (`List.mergeSort` on two or more elements does not
+reduce by `decide`): a position restraint under `#ifdef`, with a group name and a comment -/
+def exTextMol : Mol :=
+  { nrexcl := 3,
+    atoms := [⟨7, none, "A1", "P1", 12, "RA", 1, some "0.0", none⟩],
+    sections := [("position_restraints", [⟨[7], ["1", "1000"], some "POSRES", none, some "restraints", some " keep; it "⟩])] }
+
+open PolyplyVerif.C11Lex in
+example :
+    (match writeItp ["made by  a test "] "mol" exTextMol, writeItpText ["made by  a test "] "mol" exTextMol with
+     | .ok lines, .ok text =>
+       decide (lexText text = lines.map normLine) &&
+       decide (text = ["; made by  a test ".toList, [], "[ moleculetype ]".toList, "mol 3".toList, [], "[ atoms ]".toList,
+                       "1 P1 12 RA A1 1 0.0 ".toList, [], "[ position_restraints ]".toList, "#ifdef POSRES".toList,
+                       "; restraints".toList, "1 1 1000 ;  keep; it ".toList, "#endif".toList, []]) &&
+       decide (lexText text = [.comment "made by  a test", .blank, .header "moleculetype", .data ["mol", "3"] none, .blank,
+                       .header "atoms", .data ["1", "P1", "12", "RA", "A1", "1", "0.0"] none, .blank,
+                       .header "position_restraints", .pragma ["#ifdef", "POSRES"], .comment "restraints",
+                       .data ["1", "1", "1000"] (some "keep; it"), .pragma ["#endif"], .blank])
+     | _, _ => false) = true := by
+  decide +kernel
+
+open PolyplyVerif.C11Lex in
+/-- **Round trip on characters.**  For every well-formed molecule whose strings are tokens: the text is
+written, and reading that TEXT — lexed by the readers' own lexer — with `read_itp` and through the topology
+reader returns the block of `C11_roundtrip`: the molecule's name and `nrexcl`, its atoms in written order
+and, per section, the multiset of its interactions (atoms, parameters, guard).  The same holds for the file
+as `gen_params` writes it (command line and citations in the header). -/
+theorem C11_roundtrip_text (header : List String) (moltype : Tok) (m : Mol) (hwf : WF m)
+    (htok : tokensOk moltype m = true) :
+    ∃ text b, writeItpText header moltype m = .ok text ∧ readItpText text = .ok b ∧ readViaTopText text = .ok b ∧
+      b.name = moltype ∧ b.nrexcl = m.nrexcl ∧ b.atoms = canonAtoms m ∧
+      ∀ s, (b.ixnsOf s).Perm (canonIxns m s) := by
+  obtain ⟨lines, b, hw, hr, h⟩ := Proofs.ItpIO.roundtrip header moltype m hwf
+  obtain ⟨text, ht, hl⟩ := Proofs.C11Lex.lex_writeItpText header moltype m lines hw htok
+    (Proofs.C11Lex.headersOk_of_WF m hwf)
+  refine ⟨text, b, ht, ?_, ?_, h⟩
+  · unfold readItpText; rw [hl, Proofs.C11Lex.readItp_norm]; exact hr
+  · unfold readViaTopText; rw [hl, Proofs.C11Lex.readViaTop_norm]
+    exact (Proofs.ItpIO.writeItp_top header moltype m hwf lines hw).trans hr
+
+open PolyplyVerif.C11Lex in
+example : WF exMol ∧ tokensOk "mol" exMol = true := ⟨Proofs.ItpIO.wfB_sound exMol (by decide), by decide⟩
+
+open PolyplyVerif.C11Lex in
+/-- the same for the file `gen_params` writes (`writeGenParamsText`: `; argv`, empty line, the request to
+cite, one comment line per citation) -/
+theorem C11_roundtrip_text_gen_params (argv : String) (cites : List String) (moltype : Tok) (m : Mol) (hwf : WF m)
+    (htok : tokensOk moltype m = true) :
+    ∃ text b, writeGenParamsText argv cites moltype m = .ok text ∧ readItpText text = .ok b ∧
+      b.name = moltype ∧ b.nrexcl = m.nrexcl ∧ b.atoms = canonAtoms m ∧
+      ∀ s, (b.ixnsOf s).Perm (canonIxns m s) := by
+  obtain ⟨body, b, hw, hr, h⟩ := Proofs.ItpIO.roundtrip [] moltype m hwf
+  have hg : writeGenParams argv cites moltype m = .ok (genParamsHeaderLines argv cites ++ body) := by
+    simp [writeGenParams, hw]
+  obtain ⟨text, ht, hl⟩ := Proofs.C11Lex.lex_writeGenParamsText argv cites moltype m _ hg htok
+    (Proofs.C11Lex.headersOk_of_WF m hwf)
+  refine ⟨text, b, ht, ?_, h⟩
+  unfold readItpText
+  rw [hl, Proofs.C11Lex.readItp_norm, Proofs.ItpIO.readItp_skip_prefix _ _ (Proofs.ItpIO.genHeader_skip argv cites)]
+  exact hr
+
+open PolyplyVerif.C11Lex in
+example : (match writeGenParamsText "polyply gen_params -seq RA:1 RB:1" ["Grunewald et al. 2022"] "mol" exTextMol with
+    | .ok text => text.take 5 == ["; polyply gen_params -seq RA:1 RB:1".toList, [], "; Please cite the following papers:".toList,
+                                  "; Grunewald et al. 2022".toList, []]
+    | .error _ => false) = true := by decide +kernel
+
+open PolyplyVerif.C11Lex in
+/-- **Round trip on the file.**  The file is ONE character sequence: every line followed by `'\n'`
+(`writeItpFile`); the readers cut it into lines again (`splitLines` = `readlines()`), lex every line and read
+the token lines.  For every well-formed molecule whose strings are tokens and whose header lines, group names
+and comments contain no line break, the block read back from the CHARACTERS of the file — directly and through
+the topology reader — is the block of `C11_roundtrip`. -/
+theorem C11_roundtrip_file (header : List String) (moltype : Tok) (m : Mol) (hwf : WF m)
+    (htok : tokensOk moltype m = true) (hnl : noNewlines header m = true) :
+    ∃ file b, writeItpFile header moltype m = .ok file ∧ readItpFile file = .ok b ∧ readViaTopFile file = .ok b ∧
+      b.name = moltype ∧ b.nrexcl = m.nrexcl ∧ b.atoms = canonAtoms m ∧
+      ∀ s, (b.ixnsOf s).Perm (canonIxns m s) := by
+  obtain ⟨text, b, ht, hr, hrt, h⟩ := C11_roundtrip_text header moltype m hwf htok
+  have hsplit : splitLines (joinLines text) = text :=
+    Proofs.C11Lex.splitLines_joinLines text
+      (Proofs.C11Lex.nonl_writeItpText header moltype m text ht htok (Proofs.C11Lex.headersOk_of_WF m hwf) hnl)
+  refine ⟨joinLines text, b, by simp [writeItpFile, ht, Except.map], ?_, ?_, h⟩
+  · unfold readItpFile; rw [hsplit]; exact hr
+  · unfold readViaTopFile; rw [hsplit]; exact hrt
+
+open PolyplyVerif.C11Lex in
+example : WF exMol ∧ tokensOk "mol" exMol = true ∧ noNewlines ["polyply gen_params", "cite: X"] exMol = true :=
+  ⟨Proofs.ItpIO.wfB_sound exMol (by decide), by decide, by decide⟩
+
+open PolyplyVerif.C11Lex in
+example : (match writeItpFile ["h"] "mol" exTextMol with
+    | .ok file => decide (file = "; h\n\n[ moleculetype ]\nmol 3\n\n[ atoms ]\n1 P1 12 RA A1 1 0.0 \n\n[ position_restraints ]\n#ifdef POSRES\n; restraints\n1 1 1000 ;  keep; it \n#endif\n\n".toList) &&
+        decide (lexText (splitLines file) = [.comment "h", .blank, .header "moleculetype", .data ["mol", "3"] none, .blank,
+                       .header "atoms", .data ["1", "P1", "12", "RA", "A1", "1", "0.0"] none, .blank,
+                       .header "position_restraints", .pragma ["#ifdef", "POSRES"], .comment "restraints",
+                       .data ["1", "1", "1000"] (some "keep; it"), .pragma ["#endif"], .blank])
+    | .error _ => false) = true := by decide +kernel
+
+open PolyplyVerif.C11Lex PolyplyVerif.TopParse in
+/-- **Blank lines, comment lines and padding are invisible.**  Inserting, anywhere in a file, a line that
+consists of whitespace optionally followed by `;` and any text does not change what `read_itp` or the topology
+reader return (block or error); and blanks/tabs before and after a line without `;` do not change what the
+line is lexed to. -/
+theorem C11_lex_ignores_blank_comment_padding :
+    (∀ (pre post : List (List Char)) (ws cmt : List Char), (∀ c ∈ ws, isWs c = true) →
+      readItpText (pre ++ ws :: post) = readItpText (pre ++ post) ∧
+      readViaTopText (pre ++ ws :: post) = readViaTopText (pre ++ post) ∧
+      readItpText (pre ++ (ws ++ ';' :: cmt) :: post) = readItpText (pre ++ post) ∧
+      readViaTopText (pre ++ (ws ++ ';' :: cmt) :: post) = readViaTopText (pre ++ post)) ∧
+    (∀ (ws l ws' : List Char), (∀ c ∈ ws, isWs c = true) → (∀ c ∈ ws', isWs c = true) → ';' ∉ l →
+      lexLine (ws ++ l ++ ws') = lexLine l) := by
+  refine ⟨?_, Proofs.C11Lex.lexLine_pad⟩
+  intro pre post ws cmt h
+  obtain ⟨h1, h2⟩ := Proofs.C11Lex.lexLine_skip ws cmt h
+  obtain ⟨a1, a2⟩ := Proofs.C11Lex.read_insert_skip pre post ws h1
+  obtain ⟨b1, b2⟩ := Proofs.C11Lex.read_insert_skip pre post (ws ++ ';' :: cmt) h2
+  exact ⟨a1, a2, b1, b2⟩
+
+open PolyplyVerif.C11Lex in
+example : lexText ["  [ Bonds ] ; the bonds".toList, "".toList, " \t; only a comment".toList, "\t1  2 1   0.3\t5000 ; c".toList,
+                   "#ifdef  FLEX".toList, "[ atoms".toList]
+    = [.header "bonds", .blank, .comment "only a comment", .data ["1", "2", "1", "0.3", "5000"] (some "c"),
+       .pragma ["#ifdef", "FLEX"], .bad "[ atoms"] := by decide
 
 end PolyplyVerif.C11
